@@ -23,36 +23,55 @@ from concurrent.futures import ThreadPoolExecutor
 VERIF = os.path.dirname(os.path.dirname(os.path.abspath(__file__)))
 
 
+def apply_mutant(m, tmp):
+    """Copy /repo to tmp and apply mutant m there; returns an error string or
+    None"""
+
+    subprocess.check_call(['rsync', '-a', '--exclude', '.git',
+                           '--exclude', 'tests', '--exclude', 'docs',
+                           '/repo/', tmp + '/'])
+
+    if m.get('revert'):
+        # undo one fix: commit of /repo in the scratch copy
+        diff = subprocess.run(
+            ['git', '-C', '/repo', 'diff', m['revert'] + '^',
+             m['revert'], '--', 'asyncssh'], capture_output=True,
+            text=True, check=True).stdout
+        ap = subprocess.run(['git', 'apply', '-R', '-'], input=diff,
+                            cwd=tmp, capture_output=True, text=True)
+        if ap.returncode:
+            return 'revert does not apply: ' + ap.stderr[:200]
+
+    for e in m.get('edits') or ([m] if 'file' in m else []):
+        path = os.path.join(tmp, e['file'])
+        src = open(path).read()
+
+        if src.count(e['old']) != 1:
+            return 'old text occurs %d times' % src.count(e['old'])
+
+        open(path, 'w').write(src.replace(e['old'], e['new']))
+
+    return None
+
+
+def load_catalogue():
+    import glob
+    cat = []
+    for f in sorted(glob.glob(os.path.join(VERIF, 'mutants', 'c[0-9]*.json'))):
+        cat.extend(json.load(open(f)))
+    return cat
+
+
 def run_one(m, tier, seed):
     tmp = tempfile.mkdtemp(prefix='asyncssh-mut.', dir='/var/tmp')
     out = {'id': m['id'], 'results': {}}
 
     try:
-        subprocess.check_call(['rsync', '-a', '--exclude', '.git',
-                               '--exclude', 'tests', '--exclude', 'docs',
-                               '/repo/', tmp + '/'])
-        if m.get('revert'):
-            # undo one fix: commit of /repo in the scratch copy
-            diff = subprocess.run(
-                ['git', '-C', '/repo', 'diff', m['revert'] + '^',
-                 m['revert'], '--', 'asyncssh'], capture_output=True,
-                text=True, check=True).stdout
-            ap = subprocess.run(['git', 'apply', '-R', '-'], input=diff,
-                                cwd=tmp, capture_output=True, text=True)
-            if ap.returncode:
-                out['error'] = 'revert does not apply: ' + ap.stderr[:200]
-                return out
+        err = apply_mutant(m, tmp)
 
-        for e in m.get('edits') or ([m] if 'file' in m else []):
-            path = os.path.join(tmp, e['file'])
-            src = open(path).read()
-
-            if src.count(e['old']) != 1:
-                out['error'] = 'old text occurs %d times' % \
-                    src.count(e['old'])
-                return out
-
-            open(path, 'w').write(src.replace(e['old'], e['new']))
+        if err:
+            out['error'] = err
+            return out
 
         for prop in m['props']:
             env = dict(os.environ, VERIF_REPO=tmp, VERIF_JOBS=str(m.get(
@@ -87,10 +106,7 @@ def main():
     ap.add_argument('--prop')
     ap.add_argument('--jobs', type=int, default=2)
     args = ap.parse_args()
-    import glob
-    cat = []
-    for f in sorted(glob.glob(os.path.join(VERIF, 'mutants', 'c[0-9]*.json'))):
-        cat.extend(json.load(open(f)))
+    cat = load_catalogue()
 
     if args.only:
         ids = args.only.split(',')
